@@ -51,6 +51,119 @@ GROUND = [Bounded('frame_function_items', frame_ground(
 CONTRACTS = []
 
 
+# ---- deductive: the higher-order functions equal their definitional expansions, for an arbitrary (uninterpreted) callee --------------------
+from pyvc.values import *  # noqa: E402,F401
+from pyvc.contract import Contract, Case  # noqa: E402
+from pyvc.interp import LoopSpec  # noqa: E402
+from pyvc.specprims import *  # noqa: E402,F401
+from elementpath.xpath_tokens import XPathFunction as _XPathFunction  # noqa: E402
+
+
+def hof_case(symbol, fidx, arity, result_kind):
+    """fn:<symbol>(S, [zero,] f): S an arbitrary sequence of opaque items, f an arbitrary function item modelled by the uninterpreted
+    callee1 / callee2 / pred1; the token's children are stand-ins, the call `func(..)` is the hook below."""
+    def setup(S, ex):
+        from pyvc.contract import Sym  # noqa
+        seq = S.seq('S', K_ITEM)
+        zero = S.item('zero')
+        tok = mk_token('3.1', symbol, parser=mk_parser('3.1', False), nitems=fidx + 1, context=NONE)
+        ctx = mk_context()
+        fcls = PARSERS['3.1'].symbol_table['abs']
+        func = VObj(fcls, {'symbol': lift('abs'), 'arity': lift(arity), 'nargs': lift(arity)}, name='func')
+        operand = VObj(fcls, {'symbol': lift('(')}, name='operand')
+
+        def index(ex, obj, idx):
+            if obj is tok:
+                return func if idx.conc == fidx else operand
+            return None
+
+        def call_func(ex, node, a, kw):
+            if arity == 2:
+                return VItem(callee2_term(a[0], a[1]))
+            if result_kind == 'bool':
+                return VBool(pred1_term(a[0]))
+            return VItem(callee1_term(a[0]))
+
+        def get_argument(ex, node, a, kw):
+            return zero
+        def isinstance_hook(ex, *rest):
+            # an opaque item stands for one XDM item, never for a Python list of items
+            import z3
+            from pyvc import models
+            if len(rest) == 2:                                     # (value, classes): the model's own hook point
+                v, classes = rest
+                return z3.BoolVal(False) if isinstance(v, VItem) and all(c in (list, tuple) for c in classes) else None
+            node, a, kw = rest                                     # a call `isinstance(x, C)` in the code
+            return VBool(models.isinstance_(ex, a[0], a[1]))
+        hooks = std_hooks(tok, {'index': index, 'func': call_func, 'self[0].select': lambda ex, node, a, kw: seq, 'self.get_argument': get_argument,
+                                'isinstance': isinstance_hook})
+        return Case([tok, ctx], hooks=hooks, names={'zero': zero})
+    return setup
+
+
+def callee2_term(a, b):
+    import z3
+    from pyvc.values import ITEM_SORT
+    return z3.Function('callee2', ITEM_SORT, ITEM_SORT, ITEM_SORT)(a.t, b.t)
+
+
+def callee1_term(a):
+    import z3
+    from pyvc.values import ITEM_SORT
+    return z3.Function('callee1', ITEM_SORT, ITEM_SORT)(a.t)
+
+
+def pred1_term(a):
+    import z3
+    from pyvc.values import ITEM_SORT
+    return z3.Function('pred1', ITEM_SORT, z3.BoolSort())(a.t)
+
+
+def real_select(fname):
+    """The select method of the function token class behind a proxied symbol (fn:fold-left and array:fold-left share the symbol)."""
+    def get():
+        for cls in PARSERS['3.1'].symbol_table.values():
+            f = cls.__dict__.get('select')
+            if f is not None and getattr(f, '__name__', '') == fname:
+                return f
+        raise LookupError(fname)
+    return get
+
+
+def fold_case(symbol):
+    """adds the specification sequence R (the definitional expansion): R[0] = zero, R[j+1] = f(R[j], S[j]) for fold-left,
+    R[j+1] = f(S[len-1-j], R[j]) for fold-right; assumed as a precondition (it is a definition, satisfiable for every S)."""
+    inner = hof_case(symbol, 2, 2, 'item')
+
+    def setup(S, ex):
+        case = inner(S, ex)
+        r = S.seq('R', K_ITEM)
+        case.names['R'] = r
+        return case
+    return setup
+
+
+CONTRACTS = [
+    Contract('fold-left', 'C16', real_select('select__fold_left'), fold_case('fold-left'),
+             pre=["len(R) == len(S) + 1", "R[0] == zero", "forall_range(0, len(S), lambda j: R[j + 1] == callee2(R[j], S[j]))"],
+             post=[('equals_the_left_fold', "returned and len(out) == 1 and out[0] == R[len(S)]")],
+             loops={0: LoopSpec(["_i0 <= len(S)", "result == R[_i0]"])},
+             generator=K_ITEM, native=None, expect_min_obligations=3,
+             notes=['the callee is an arbitrary binary function on items (uninterpreted callee2); the accumulator is a single item (a sequence-valued '
+                    'accumulator is covered by the bounded programs)']),
+    Contract('fold-right', 'C16', real_select('select__fold_right'), fold_case('fold-right'),
+             pre=["len(R) == len(S) + 1", "R[0] == zero", "forall_range(0, len(S), lambda j: R[j + 1] == callee2(S[len(S) - 1 - j], R[j]))"],
+             post=[('equals_the_right_fold', "returned and len(out) == 1 and out[0] == R[len(S)]")],
+             loops={0: LoopSpec(["_i0 <= len(S)", "result == R[_i0]"])},
+             generator=K_ITEM, native=None, expect_min_obligations=3),
+    Contract('for-each', 'C16', real_select('select__for_each'), hof_case('for-each', 1, 1, 'item'),
+             post=[('maps_every_item_in_order', "returned and len(out) == len(S) and forall_range(0, len(S), lambda j: out[j] == callee1(S[j]))")],
+             loops={0: LoopSpec(["_i0 <= len(S)", "len(out) == _i0", "forall_range(0, _i0, lambda j: out[j] == callee1(S[j]))"])},
+             generator=K_ITEM, native=None, expect_min_obligations=3,
+             notes=['callee results are single items here; sequence-valued results (flattening) are covered by the bounded programs']),
+]
+
+
 def bounded_hof(tier, seed):
     from elementpath import select as ep_select
     P = PARSERS['3.1']
